@@ -197,9 +197,13 @@ class Built:
             if op == "multiply":
                 return SF.multiply(arg(t["a"]), arg(t["b"]))
             if op == "evidence":
-                obs = {self.ids[v - 1]: val for v, val in zip(t["vars"], t["vals"])}
+                obs = {self.ids[v - 1]: (val / 2 ** t.get("ed", 0) if t.get("ed", 0) else val)
+                       for v, val in zip(t["vars"], t["vals"])}
                 if self.has_poly:
-                    obs = {k: float(v) for k, v in obs.items()}
+                    # continuous variables: the first observed value is given as a Python int,
+                    # the others as floats (mixed int / float observations are legal)
+                    obs = {k: (int(v) if n == 0 and float(v).is_integer() else float(v))
+                           for n, (k, v) in enumerate(obs.items())}
                 return SF.evidence(arg(t["a"]), obs)
             if op == "conjugate":
                 return SF.conjugate(arg(t["a"]))
